@@ -51,7 +51,8 @@ def message_abs(o):
         has_pid = hasattr(o, 'packet_id')
         return 'openvpn', {'opcode': int(o.get_op_code()), 'key_id': 0, 'session_id': digits(o.session_id),
                            'acks': [digits(a) for a in o.packet_id_array],
-                           'remote_session_id': digits(o.remote_session_id or 0), 'has_packet_id': has_pid,
+                           'remote_session_id': digits(o.remote_session_id or 0), 'has_remote': o.remote_session_id is not None,
+                           'has_packet_id': has_pid,
                            'packet_id': digits(getattr(o, 'packet_id', 0) or 0), 'payload': list(getattr(o, 'payload', b'') or b'')}, '-'
     if n == 'OpenVpnPacketWrapperTcp':
         return 'openvpn_tcp', {'length': digits(len(o.payload)), 'payload': list(o.payload)}, '-'
